@@ -4,3 +4,8 @@ import OsacaVerif.Model.RegDep
 import OsacaVerif.Spec.RegUniverse
 import OsacaVerif.Lemmas.Text
 import OsacaVerif.Props.C12
+import OsacaVerif.Model.Fmt
+import OsacaVerif.Model.Report
+import OsacaVerif.Model.ReportView
+import OsacaVerif.Spec.ReportView
+import OsacaVerif.Props.C13
